@@ -28,6 +28,13 @@ let p_action () = match next () with
     let hs = p_list n (fun () -> let k = p_obj () in let v = p_obj () in (k, v)) in
     let e = p_oexn () in
     AStart (st, hs, e)
+  | "T" ->
+    (* try: start_response(...) except BaseException: pass *)
+    let st = p_obj () in
+    let n = p_int () in
+    let hs = p_list n (fun () -> let k = p_obj () in let v = p_obj () in (k, v)) in
+    let e = p_oexn () in
+    ATryStart (st, hs, e)
   | "W" -> AWrite (p_bytes ())
   | "R" -> ARaise (p_exn ())
   | "M" -> let i = p_int () in let isv = p_bool () in let v = p_str () in AMutate (nat_of_int i, isv, v)
